@@ -63,14 +63,49 @@ def run(chk):
             found += chk.violation('history', O.guarded(O.c17_history, small)[0], {'kind': 'history', 'case': small})
             if found > 2:
                 break
+    # the solver's own evolvent: the same queries answer the same before and after a search, and like a fresh object
+    for _ in range(24 if thorough else 8):
+        n = rng.choice([2, 2, 3])
+        lo, hi = H.random_box(rng, n, nice=rng.random() < 0.5)
+        case = {'n': n, 'lo': lo, 'hi': hi, 'r': rng.choice([2.5, 3.5]), 'eps': rng.choice([0.01, 0.001]), 'iters': rng.choice([150, 400]), 'density': rng.choice([2, 3, 4, 5]),
+                'objective': H.random_objective(rng, n, kinds=('quad', 'cones', 'sin'), lo=lo, hi=hi)}
+        fails = O.guarded(solver_evolvent_pure, case)
+        chk.evaluations += 1
+        if fails:
+            found += chk.violation('history', fails[0], {'kind': 'solver', 'case': case})
     chk.cov['history_ops'] = nops
     chk.nontrivial += chk.evaluations
     if not found:
         for c in bad_img[:2]:
-            chk.violation('image-mismatch', 'GetImage disagrees with the model (code %d)' % c['code'], {'kind': 'image-corr', 'case': c})
+            chk.violation('image-mismatch', 'GetImage disagrees with the model (code %d)' % c['code'], {'kind': 'image-corr', 'case': c}, found_input=False)
+
+
+def solver_evolvent_pure(case):
+    import numpy as np
+    from iOpt.evolvent.evolvent import Evolvent
+    p, s = O.build(case)
+    xs = [0.0, 0.1234, 0.5, 0.75, 0.999, 1.0] + [i / 37.0 for i in range(1, 37, 5)]
+    ys = [[a + (b - a) * t for a, b in zip(case['lo'], case['hi'])] for t in (0.1, 0.37, 0.62, 0.9)]
+
+    def ask(ev):
+        return [tuple(float(v) for v in ev.GetImage(x)) for x in xs] + [float(ev.GetInverseImage(np.array(y, dtype=np.double))) for y in ys]
+    before = ask(s.evolvent)
+    sol, out = H.run_script(s, [('iter', 7), ('solve',)])
+    after = ask(s.evolvent)
+    fresh = ask(Evolvent(case['lo'], case['hi'], case['n'], case['density']))
+    fails = []
+    if before != after:
+        k = next(i for i in range(len(before)) if before[i] != after[i])
+        fails.append('the solver\'s evolvent answers query %d differently after the search (%r -> %r; N=%d, density %d, %d trials)' % (k, before[k], after[k], case['n'], case['density'], len(p.log)))
+    elif after != fresh:
+        k = next(i for i in range(len(fresh)) if fresh[i] != after[i])
+        fails.append('the solver\'s evolvent answers query %d unlike a fresh Evolvent with the same configuration (%r vs %r)' % (k, after[k], fresh[k]))
+    return fails
 
 
 def replay(chk, rp):
+    if rp.get('kind') == 'solver':
+        fails = O.guarded(solver_evolvent_pure, rp['case']); print(fails); return not fails
     c = rp['case']
     c['ops'] = [tuple(o) for o in c['ops']]
     fails = O.guarded(O.c17_history, c)
